@@ -62,7 +62,7 @@ impl Serialize for &str {
 impl Deserialize for String {
 	fn deserialize(read: &mut impl io::Read) -> FResult<Self> {
 		let len = usize::deserialize(read)?;
-		let mut buf = Vec::with_capacity(len);
+		let mut buf = Vec::new();
 		for _ in 0..len {
 			buf.push(u8::deserialize(read)?);
 		}
